@@ -38,6 +38,13 @@
   ADDED LATER (`Props/C05Idem.lean`, `Lemmas/SolverStale*.lean`): the irrelevance of ALL the other
   mutable components is now a theorem (`C05.full_solve_reads_only`, `full_solve_idempotent_finite`),
   with exactly the side condition 2. above and one remaining hypothesis about `KKTSolver::update` (`QW`).
+
+  REPAIRED in /repo 7c1c881: reason 2 is gone too (`solve_initial_point` zero-fills `variables.x/s/z`
+  before its KKT solves, so a failed solve leaves the start of a fresh solver object; observed before
+  the repair also after a first solve that ended with MaxIterations and finite figures:
+  `corpus/SOLVER/stale-start-after-failed-init-0.json`).  The intended statement is now a theorem with
+  structural hypotheses only: `C05.full_solve_idempotent_any_start` (`Props/C05Idem.lean`), and the
+  oracle of `solve.twice` requires a bit-identical second solve after EVERY first solve.
 -/
 import ClarabelProofs.Lemmas.SolverModelIdem
 import ClarabelProofs.Lemmas.SolverModelExample
